@@ -32,6 +32,7 @@ struct Local {
     panicked: BTreeMap<(usize, String), u64>,
     violations: Vec<(String, serde_json::Value)>,
     noncanon_documented: BTreeMap<String, u64>,
+    census: BTreeMap<(String, String), (u64, Vec<u8>, Vec<u8>)>,
     keys: Vec<u128>,
     evals: u64,
     samples: Vec<serde_json::Value>,
@@ -56,6 +57,16 @@ impl Local {
         }
         for (k, v) in o.noncanon_documented {
             *self.noncanon_documented.entry(k).or_default() += v;
+        }
+        for (k, (n, lo, hi)) in o.census {
+            let e = self.census.entry(k).or_insert((0, lo.clone(), hi.clone()));
+            e.0 += n;
+            if lo < e.1 {
+                e.1 = lo;
+            }
+            if hi > e.2 {
+                e.2 = hi;
+            }
         }
         self.violations.extend(o.violations);
         self.keys.extend(o.keys);
@@ -107,6 +118,14 @@ fn judge(table: &[Codec], ci: usize, input: &[u8], phase: &str, orig: Option<(&[
             if !canonical_ok {
                 let sig = classify(c.group, &c.name, input, &reencoded);
                 if c.canonical {
+                    let e = l.census.entry((sig.clone(), c.name.clone())).or_insert((0, input.to_vec(), input.to_vec()));
+                    e.0 += 1;
+                    if input < e.1.as_slice() {
+                        e.1 = input.to_vec();
+                    }
+                    if input > e.2.as_slice() {
+                        e.2 = input.to_vec();
+                    }
                     if l.violations.len() < 64 {
                         l.violations.push((
                             sig,
@@ -119,7 +138,7 @@ fn judge(table: &[Codec], ci: usize, input: &[u8], phase: &str, orig: Option<(&[
                         l.violations.push((sig, json!({"case": {"codec": c.name, "input_hex": hex(input)}, "phase": phase})));
                     }
                 } else {
-                    *l.noncanon_documented.entry(format!("{}:{}", c.name, sig)).or_default() += 1;
+                    *l.noncanon_documented.entry(sig).or_default() += 1;
                 }
             } else if let Some((ob, orepr)) = orig {
                 // canonical per re-encode, different bytes than the original: values must differ
@@ -163,8 +182,14 @@ fn flush(r: &Report, table: &[Codec], l: Local, phase: &str) -> (BTreeMap<usize,
     r.outcome_n(&format!("{phase}:accepted"), l.accepted.values().sum());
     r.outcome_n(&format!("{phase}:rejected"), l.rejected.values().sum());
     for (k, n) in &l.noncanon_documented {
-        r.counter(&format!("documented_decode_normalisation:{k}"), *n);
+        r.counter(&format!("{phase}:round-trip-only-codec-accepts-other-spelling(allowed):{k}"), *n);
     }
+    let census: Vec<serde_json::Value> = l
+        .census
+        .iter()
+        .map(|((sig, codec), (n, lo, hi))| json!({"signature": sig, "codec": codec, "accepted_noncanonical_inputs": n, "smallest_hex": hex(&lo[..lo.len().min(64)]), "largest_hex": hex(&hi[..hi.len().min(64)])}))
+        .collect();
+    r.note(&format!("{phase}:accepted_noncanonical_census"), json!(census));
     for (sig, d) in l.violations {
         r.violation(&sig, d);
     }
@@ -449,7 +474,7 @@ fn main() {
     );
     r.assume("value equality is equality of the Debug rendering of the decoded value (all NaNs are one value); the real encoder applied to the decoded value is the canonical form (EINGR001: the v2 writer's bytes under the v1 magic, the gate head_inbox.rs itself defines)");
     r.assume("ABI value domain = docs/spec/js-cbor-mapping.md: integral floats are ints, integers are i64 ∪ u64; values outside it are counted as encoder_accepts_outside_domain, never as violations");
-    r.assume("le-codec f32: the reader documents that it canonicalises on decode; accepted non-canonical f32 inputs are counted under documented_decode_normalisation, not flagged");
+    r.assume("le-codec f32: the reader documents that it canonicalises on decode; accepted non-canonical f32 inputs are counted (…round-trip-only-codec-accepts-other-spelling…), not flagged");
     r.note("codecs", json!(table.iter().map(|c| json!({"name": c.name, "canonical_form": c.canonical, "min_valid_len": c.min_len, "anchor": c.anchor})).collect::<Vec<_>>()));
     r.note("not_covered", json!(codecs::not_covered().iter().map(|(a, b)| json!({"pair": a, "reason": b})).collect::<Vec<_>>()));
     r.counter("codecs_in_table", table.len() as u64);
